@@ -116,6 +116,8 @@ D = {
  "C16-f": ("cmd/cff run takes the file path from fset.Position(file.Package).Filename", "a source file with a //line directive before its package clause"),
  "C17-f": ("templates cached per process behind sync.Once with the first generator's magic token bound", "source-map mode and a second directive file (or an in-package test) processed in the same run"),
  "C20-f": ("modifier generator's typeID keyed by types.TypeString", "modifier mode; producer and consumer spell one type differently"),
+ "C18-f": ("flow/task.go.tmpl: a trailing comment plus `{{- if .FallbackWith -}}` glue TaskPanic / TaskPanicRecovered onto the comment line", "an instrumented flow task whose function or predicate panics"),
+ "C10-f": ("scheduler loop: container/list ready list replaced by a slice-backed queue whose PushBack compaction copies into a too-short destination", "a PushBack that finds the 128-entry ready slice exactly full with more jobs queued than dispatched: > 128 jobs whose functions are slower than the enqueue loop"),
 }
 rows = []
 for sid in sorted(D):
